@@ -40,9 +40,22 @@ type pushReq struct {
 	respond chan pushResp
 }
 type pushResp struct {
-	code  int // <0: transport error
-	delay time.Duration
+	code    int // <0: transport error
+	delay   time.Duration
+	badBody bool // the response body breaks off (fewer bytes than announced, connection closed)
 }
+
+// truncatedBody yields a few bytes and then fails the way net/http does when the peer closes early
+type truncatedBody struct{ sent bool }
+
+func (b *truncatedBody) Read(p []byte) (int, error) {
+	if !b.sent && len(p) > 0 {
+		b.sent = true
+		return copy(p, []byte("{\"ok\":")), nil
+	}
+	return 0, io.ErrUnexpectedEOF
+}
+func (b *truncatedBody) Close() error { return nil }
 
 // scriptedRT hands every request to the test, which decides the response.
 type scriptedRT struct {
@@ -81,6 +94,9 @@ func (rt *scriptedRT) RoundTrip(req *http.Request) (*http.Response, error) {
 	}
 	if r.code < 0 {
 		return nil, fmt.Errorf("connection refused (scripted)")
+	}
+	if r.badBody {
+		return &http.Response{StatusCode: r.code, Status: fmt.Sprint(r.code), Body: &truncatedBody{}, ContentLength: 1000, Header: http.Header{}, Request: req}, nil
 	}
 	return &http.Response{StatusCode: r.code, Status: fmt.Sprint(r.code), Body: io.NopCloser(bytes.NewReader([]byte("{}"))), Header: http.Header{}, Request: req}, nil
 }
@@ -183,7 +199,11 @@ func TestC19(t *testing.T) {
 			}
 			st.Count("envelopes_checked", 1)
 			slow := i%5 == 4
-			resp := pushResp{code: code}
+			// (the final status decides, whether or not the body can be read to its end)
+			resp := pushResp{code: code, badBody: i%2 == 1}
+			if resp.badBody {
+				st.Count("truncated_bodies", 1)
+			}
 			if slow {
 				resp.delay = 1100 * time.Millisecond
 			}
@@ -197,7 +217,7 @@ func TestC19(t *testing.T) {
 			documented := code == 102 || code == 200 || code == 201 || code == 202 || code == 204
 			if isAck != documented {
 				disagreements++
-				violate("status-map", fmt.Sprintf("endpoint answered %d (-1 = transport error): delivery acknowledged=%v, but the documented success set is 200/201/202/204/102", code, isAck), fmt.Sprint(code))
+				violate("status-map", fmt.Sprintf("endpoint answered %d (-1 = transport error; response body cut short: %v): delivery acknowledged=%v, but the documented success set is 200/201/202/204/102", code, resp.badBody, isAck), fmt.Sprint(code))
 				break
 			}
 			if isAck != modelAck[code] && corrBroken == "" {
